@@ -359,9 +359,11 @@ func (srv *poolServer) RoundTrip(req *http.Request) (*http.Response, error) {
 	srv.counts[req.URL.Path]++
 	count := srv.counts[req.URL.Path]
 	frozen := srv.frozen
-	if s := srv.scn; s.format == "ll" && ((s.closeAt == "held" && idx == s.cidx) || (s.fault == "stall" && idx == s.fidx)) {
-		// with two independent Low-Latency streams the other one would otherwise run to its end
-		// ("preload hint disappeared") while this request is held / stalls
+	if s := srv.scn; s.format == "ll" && (((s.closeAt == "held" || s.closeAt == "req") && idx == s.cidx) ||
+		((s.fault == "stall" || s.fault == "status" || s.fault == "transport") && idx == s.fidx)) {
+		// with two independent Low-Latency streams the other one would otherwise run to its end ("preload hint
+		// disappeared", a few microseconds of requests away) while this request is held / stalls / its failure is
+		// still on its way to the owner of the pool: which fatal error is "first" would be a coin toss
 		srv.frozen = true
 	}
 	srv.mu.Unlock()
